@@ -27,7 +27,10 @@ use rand::random;
 use tcp::PayloadCodec;
 use tcp::ServerContext;
 use template::message::InboundIn;
+#[cfg(not(octo_squirrel_verif))]
 use tokio::net::UdpSocket;
+#[cfg(octo_squirrel_verif)]
+use octo_squirrel::verif::net::UdpSocket;
 use tokio::sync::mpsc;
 use tokio::sync::mpsc::Receiver;
 use tokio::sync::mpsc::Sender;
